@@ -25,6 +25,12 @@ func (e *DOHEndpoint) VerifWrapRoundTripper(inner http.RoundTripper) {
 	e.transport = transport{RoundTripper: inner, hostname: e.Hostname, path: e.Path, addr: e.Hostname + ":443"}
 }
 
+// VerifRawRoundTripper installs rt as the endpoint's transport as it is: requests arrive at rt exactly as the resolver
+// built them (cache area, histories driven through DNS.Resolve and the endpoint manager).
+func (e *DOHEndpoint) VerifRawRoundTripper(rt http.RoundTripper) {
+	e.transport = rt
+}
+
 // VerifUseTransportAddrs builds the endpoint's real HTTP/2 transport dialling addrs IN PARALLEL (the package's own
 // parallelDialer, as with several bootstrap addresses) and trusting roots.
 func (e *DOHEndpoint) VerifUseTransportAddrs(addrs []string, roots *x509.CertPool) {
